@@ -209,7 +209,11 @@ func (e *miniEnv) eval(n *ref.Node) (mv, bool) {
 		switch n.Op {
 		case "+":
 			if a.K == "int" && b.K == "int" {
-				return mvInt(a.I + b.I), false
+				sum := a.I + b.I
+				if (sum > a.I) != (b.I > 0) {
+					e.unspec = true // beyond the model's 64-bit integers
+				}
+				return mvInt(sum), false
 			}
 			if a.K == "str" && b.K == "str" {
 				return mvStr(a.S + b.S), false
